@@ -39,6 +39,8 @@ VALUE_SHAPES = {
     'nested': [1, 'a', {'k2': [2, {'z': None, 'y': True}], 'k1': 1.5}],
     'placeholder': ['{DIR}/x', {'k': 'a{DIR}b'}],
     # equal sub-values at several places (written out twice, or written once and referred to twice)
+    # mappings below a list whose elements are all lists (a table of steps with options)
+    'table': [['scale', {'factor': 2, 'offset': 1}], ['clip', {'lo': 0, 'hi': 9, 'mode': {'b': 1, 'a': 2}}]],
     'twins': {'train': ['id', 'text', {'k': [1]}], 'test': ['id', 'text', {'k': [1]}], 'all': [['id', 'text', {'k': [1]}], {'k': [1]}]},
     'auto-scalar': {'__obj__': 'Auto1', 'kwargs': {'a': 1, 'b': 'x'}},
     'auto-list': {'__obj__': 'Auto1', 'kwargs': {'a': [1, [2, 'x']], 'b': 2}},
@@ -64,7 +66,7 @@ def bases(tier):
         if name == 'mount2':
             d['context'] = worlds.apply_variant(families.mount2(), 'v12')['context']
         out.append(d)
-    shapes = list(VALUE_SHAPES) if tier != 'quick' else ['nested', 'placeholder', 'twins', 'auto-list', 'auto-dict', 'auto-set', 'auto-raw', 'plain-kwargs', 'auto-default', 'auto-in-list']
+    shapes = list(VALUE_SHAPES) if tier != 'quick' else ['nested', 'placeholder', 'twins', 'table', 'auto-list', 'auto-dict', 'auto-set', 'auto-raw', 'plain-kwargs', 'auto-default', 'auto-in-list']
     for s in shapes:
         out.append(pvals(VALUE_SHAPES[s], s))
     return out
